@@ -6,6 +6,7 @@ import UF.Proofs.MatchSpec
 import UF.Proofs.ParseWF
 import UF.Proofs.Bits
 import UF.Proofs.ParsePerm
+import UF.Proofs.ParseBits
 /-
   C04 — a rule matches iff its pattern and every modifier are satisfied; value order never matters.
   Property theorems only (helper lemmas live in UF/Proofs/Match*.lean, Merge*.lean, Parse*.lean).
@@ -22,13 +23,13 @@ open UF Bytes
     by contract, the rule's by `loadCTags` (`c04_parser_sorts`). -/
 theorem merge_iff_common (a b : List Bytes) (ha : SortedB a) (hb : SortedB b) :
     matchClientTagsSpecific a b = true ↔ ∃ t, t ∈ a ∧ t ∈ b := by
-  rw [matchClientTagsSpecific_iff a b ha hb]
+  rw [E.matchClientTagsSpecific_iff a b ha hb]
   simp [List.any_eq_true]
 
 /-- Binary search over the sorted client names finds `x` iff it is listed. -/
 theorem bsearch_iff_mem (xs : List Bytes) (x : Bytes) (h : SortedB xs) :
     bsearch xs.toArray x = true ↔ x ∈ xs := by
-  rw [bsearch_iff xs x h]
+  rw [E.bsearch_iff xs x h]
   simp
 
 /-- The double-`HasSuffix` test of `isDomainOrSubdomainOfAny` says: the host is `d` or ends with
@@ -36,8 +37,8 @@ theorem bsearch_iff_mem (xs : List Bytes) (x : Bytes) (h : SortedB xs) :
 theorem domain_test_iff (host d : Bytes) :
     (host == d || (hasSuffix host d && hasSuffix host (ch '.' :: d))) = true ↔
       host = d ∨ ∃ x, host = x ++ ch '.' :: d := by
-  rw [plain_domain_test_iff]
-  simp [specPlainDomain, hasSuffix_iff]
+  rw [E.plain_domain_test_iff]
+  simp [specPlainDomain, E.hasSuffix_iff]
 
 /-- The wildcard test (`HasPrefix` / `Index > 0` pre-check, then the public-suffix comparison) says:
     the public suffix `s` of the host is non-empty and ICANN-managed and the host is `base.s` or ends
@@ -47,23 +48,23 @@ theorem wildcard_test_iff (ext : Ext) (host base : Bytes) (h : host.head? ≠ so
       (ext.psl host).1 ≠ [] ∧ (ext.psl host).2 = true ∧
       (host = base ++ ch '.' :: (ext.psl host).1 ∨
        ∃ x, host = x ++ ch '.' :: (base ++ ch '.' :: (ext.psl host).1)) := by
-  rw [domainEntryMatches_eq_spec ext host _ h]
-  have hs : hasSuffix (base ++ lit ".*") (lit ".*") = true := hasSuffix_append base (lit ".*")
+  rw [E.domainEntryMatches_eq_spec ext host _ h]
+  have hs : hasSuffix (base ++ lit ".*") (lit ".*") = true := E.hasSuffix_append base (lit ".*")
   have hl : (base ++ lit ".*").length - 2 = base.length := by simp [lit]
   simp only [specDomainEntry, hs, if_true, hl, List.take_left', specWildcardDomain]
-  simp [hasSuffix_iff, and_assoc]
+  simp [E.hasSuffix_iff, and_assoc]
 
 /-- Content-type masks, for a request that is ONE content type (bit `k`): permitted when no type is
     listed or bit `k` is, and bit `k` is not restricted. -/
 theorem reqtype_iff (r : NetRule) (k : Nat) :
     matchRequestType r (2 ^ k) = true ↔
       (r.permTypes = 0 ∨ r.permTypes.testBit k = true) ∧ r.restrTypes.testBit k = false := by
-  rw [matchRequestType_eq_spec]
+  rw [E.matchRequestType_eq_spec]
   have key : ∀ n : Nat, (n &&& 2 ^ k = 0) ↔ n.testBit k = false := by
     intro n
     have hb := and_two_pow_beq n k
     have hpos : 2 ^ k ≠ 0 := Nat.ne_of_gt (Nat.two_pow_pos k)
-    rcases and_two_pow_cases n k with e | e
+    rcases E.and_two_pow_cases n k with e | e
     · rw [e] at hb ⊢
       have : ((0 : Nat) == 2 ^ k) = false := by simp; omega
       rw [this] at hb
@@ -75,27 +76,27 @@ theorem reqtype_iff (r : NetRule) (k : Nat) :
   simp
 
 /-- `loadCTags` / `loadClients` sort what they parse: every parsed rule is well-formed. -/
-theorem c04_parser_sorts (px : ParseExt) (t : Bytes) (id : Int) (r : NetRule)
-    (h : parseNetRule px t id = .ok r) : r.WellFormed :=
-  parseNetRule_wellFormed h
+theorem c04_parser_sorts (px : E.ParseExt) (t : Bytes) (id : Int) (r : NetRule)
+    (h : E.parseNetRule px t id = .ok r) : r.WellFormed :=
+  E.parseNetRule_wellFormed h
 
 /-- C04 on rule records: for every well-formed rule (tags and client names sorted) and every request
     of the domain, `Match` is the reference. -/
 theorem c04 (ext : Ext) (r : NetRule) (q : Request) (hwf : r.WellFormed) (hq : q.InDomain) :
     r.matches ext q = specMatch ext r q :=
-  matches_eq_spec ext r q hwf hq
+  E.matches_eq_spec ext r q hwf hq
 
 /-- C04 end to end from the rule TEXT: whatever `NewNetworkRule` accepts matches a request iff the
     reference computed from the parsed modifier values does. -/
-theorem c04_text (px : ParseExt) (t : Bytes) (id : Int) (r : NetRule) (q : Request)
-    (h : parseNetRule px t id = .ok r) (hq : q.InDomain) :
+theorem c04_text (px : E.ParseExt) (t : Bytes) (id : Int) (r : NetRule) (q : Request)
+    (h : E.parseNetRule px t id = .ok r) (hq : q.InDomain) :
     r.matches px.ext q = specMatch px.ext r q :=
-  matches_eq_spec px.ext r q (parseNetRule_wellFormed h) hq
+  E.matches_eq_spec px.ext r q (E.parseNetRule_wellFormed h) hq
 
 /-- Value order never matters (1): `Match` reads the list-valued modifiers as sets. -/
 theorem c04_perm (ext : Ext) (r r' : NetRule) (h : r.PermEquiv r') (q : Request) :
     r.matches ext q = r'.matches ext q :=
-  matches_permEquiv ext h q
+  E.matches_permEquiv ext h q
 
 /-- Value order never matters (2): writing the values of every list-valued modifier in another
     order and then sorting as the parser does (`slices.Sort` for tags and client names,
@@ -109,52 +110,61 @@ theorem c04_perm_values (ext : Ext) (r : NetRule) (q : Request)
     NetRule.matches ext
       { r with permDomains := pd, restrDomains := rd, denyallow := da, permDns := pn, restrDns := rn,
                permTags := sortB pt, restrTags := sortB rt,
-               permClients := Clients.finalize (some { hosts := ph, nets := pnets }),
-               restrClients := Clients.finalize (some { hosts := rh, nets := rnets }) } q =
+               permClients := E.Clients.finalize (some { hosts := ph, nets := pnets }),
+               restrClients := E.Clients.finalize (some { hosts := rh, nets := rnets }) } q =
     NetRule.matches ext
       { r with permDomains := pd', restrDomains := rd', denyallow := da', permDns := pn', restrDns := rn',
                permTags := sortB pt', restrTags := sortB rt',
-               permClients := Clients.finalize (some { hosts := ph', nets := pnets' }),
-               restrClients := Clients.finalize (some { hosts := rh', nets := rnets' }) } q := by
-  apply matches_permEquiv
+               permClients := E.Clients.finalize (some { hosts := ph', nets := pnets' }),
+               restrClients := E.Clients.finalize (some { hosts := rh', nets := rnets' }) } q := by
+  apply E.matches_permEquiv
   exact {
     text := rfl, listID := rfl, whitelist := rfl, pattern := rfl, shortcut := rfl,
     permDomains := h1, restrDomains := h2, denyallow := h3, permDns := h4, restrDns := h5,
-    permTags := sortB_eq_of_perm h6, restrTags := sortB_eq_of_perm h7,
-    permClients := finalize_permEquiv ph ph' pnets pnets' h8 h10,
-    restrClients := finalize_permEquiv rh rh' rnets rnets' h9 h11,
+    permTags := E.sortB_eq_of_perm h6, restrTags := E.sortB_eq_of_perm h7,
+    permClients := E.finalize_permEquiv ph ph' pnets pnets' h8 h10,
+    restrClients := E.finalize_permEquiv rh rh' rnets rnets' h9 h11,
     enabled := rfl, disabled := rfl, permTypes := rfl, restrTypes := rfl }
 
 /-- Value order never matters (3), at the level of the modifier's VALUE TEXT: writing the
     `|`-separated values of `$ctag` in another order gives the same parsed (sorted) lists, or the
     same error. -/
 theorem c04_perm_text_ctag {l l' : List Bytes} (h : l.Perm l') (hne : l ≠ [])
-    (hs : sepFree (ch '|') l) :
-    loadCTags (joinSep l [ch '|']) = loadCTags (joinSep l' [ch '|']) :=
-  loadCTags_perm h hne hs
+    (hs : E.sepFree (ch '|') l) :
+    E.loadCTags (joinSep l [ch '|']) = E.loadCTags (joinSep l' [ch '|']) :=
+  E.loadCTags_perm h hne hs
 
 /-- … of `$domain` / `$denyallow`: the parsed permitted / restricted lists are permutations of
     each other (or both texts are rejected); `c04_perm` then gives equal `Match`. -/
 theorem c04_perm_text_domain {l l' : List Bytes} (h : l.Perm l') (hne : l ≠ [])
-    (hs : sepFree (ch '|') l) :
-    PE.Rel (fun a b => a.1.Perm b.1 ∧ a.2.Perm b.2)
-      (loadDomains (joinSep l [ch '|']) (ch '|')) (loadDomains (joinSep l' [ch '|']) (ch '|')) :=
-  loadDomains_perm h hne hs
+    (hs : E.sepFree (ch '|') l) :
+    E.PE.Rel (fun a b => a.1.Perm b.1 ∧ a.2.Perm b.2)
+      (E.loadDomains (joinSep l [ch '|']) (ch '|')) (E.loadDomains (joinSep l' [ch '|']) (ch '|')) :=
+  E.loadDomains_perm h hne hs
 
 /-- … of `$dnstype`. -/
 theorem c04_perm_text_dnstype {l l' : List Bytes} (h : l.Perm l') (hne : l ≠ [])
-    (hs : sepFree (ch '|') l) :
-    PE.Rel (fun a b => a.1.Perm b.1 ∧ a.2.Perm b.2)
-      (loadDNSTypes (joinSep l [ch '|'])) (loadDNSTypes (joinSep l' [ch '|'])) :=
-  loadDNSTypes_perm h hne hs
+    (hs : E.sepFree (ch '|') l) :
+    E.PE.Rel (fun a b => a.1.Perm b.1 ∧ a.2.Perm b.2)
+      (E.loadDNSTypes (joinSep l [ch '|'])) (E.loadDNSTypes (joinSep l' [ch '|'])) :=
+  E.loadDNSTypes_perm h hne hs
 
 /-- … of `$client`, on the values as `splitWithEscapeCharacter` delivers them: the finalized
     client sets have equal host lists and subnets that are permutations of each other. -/
 theorem c04_perm_text_client (ext : Ext) {l l' : List Bytes} (h : l.Perm l') :
-    PE.Rel (fun a b => Clients.PermEquiv (Clients.finalize a.1) (Clients.finalize b.1) ∧
-                       Clients.PermEquiv (Clients.finalize a.2) (Clients.finalize b.2))
-      (l.foldlM (loadClientsStep ext) (none, none)) (l'.foldlM (loadClientsStep ext) (none, none)) :=
-  loadClients_items_perm ext h
+    E.PE.Rel (fun a b => Clients.PermEquiv (E.Clients.finalize a.1) (E.Clients.finalize b.1) ∧
+                       Clients.PermEquiv (E.Clients.finalize a.2) (E.Clients.finalize b.2))
+      (l.foldlM (E.loadClientsStep ext) (none, none)) (l'.foldlM (E.loadClientsStep ext) (none, none)) :=
+  E.loadClients_items_perm ext h
+
+/-- `$csp`, `$replace`, `$cookie`, `$redirect` are unreachable from rule text on this tree
+    (`loadOption` has no case for them): no parsed rule has one of these bits (DESIGN.md §3). -/
+theorem c04_unreachable_options (px : E.ParseExt) (t : Bytes) (id : Int) (r : NetRule)
+    (h : E.parseNetRule px t id = .ok r) (opt : Nat)
+    (ho : opt = Facts.OptionCsp ∨ opt = Facts.OptionReplace ∨ opt = Facts.OptionCookie ∨
+          opt = Facts.OptionRedirect) :
+    r.isEnabled opt = false ∧ r.isDisabled opt = false :=
+  E.parseNetRule_no_advanced h opt ho
 
 /-- Generated-fact obligation: every key of `dns.StringToType` is ASCII, which is what makes the
     `upperKey` model of `strings.ToUpper` + map lookup in `strToRRType` exact for non-ASCII input. -/
